@@ -83,7 +83,7 @@ func c19(seed uint64, n int) {
 	for i := 0; i < n; i++ {
 		r := rng.New(seed*7000003 + uint64(i))
 		name := fmt.Sprintf("c19-%d-%d", seed, i)
-		if err := c19one(r, name, i%7); err != nil {
+		if err := c19one(r, name, i%8); err != nil {
 			emit(map[string]interface{}{"kind": "error", "scenario": name, "err": err.Error()})
 		}
 	}
@@ -91,7 +91,12 @@ func c19(seed uint64, n int) {
 
 func c19one(r *rng.R, name string, which int) error {
 	stallReset()
-	p, err := NewPair(PairOpts{Timeout: 10 * time.Second})
+	po := PairOpts{Timeout: 10 * time.Second}
+	if which == 7 { // small buffers: a large response takes several chunks
+		po.ClientACK = &uacp.Acknowledge{ReceiveBufSize: 8192, SendBufSize: 8192}
+		po.ServerACK = &uacp.Acknowledge{ReceiveBufSize: 8192, SendBufSize: 8192, MaxChunkCount: 64, MaxMessageSize: 1 << 20}
+	}
+	p, err := NewPair(po)
 	if err != nil {
 		return err
 	}
@@ -101,6 +106,53 @@ func c19one(r *rng.R, name string, which int) error {
 	taken := map[int]bool{}
 	expectOK := []int{}
 	switch which {
+	case 7: // late MULTI-CHUNK responses to requests nobody waits for any more: timed out, cancelled, sent without handler
+		a := s.newCaller(tyWrite, time.Duration(r.Range(20, 60))*time.Millisecond) // times out
+		c := s.newCaller(tyWrite, 5*time.Second)                                   // cancelled
+		if err := s.launch([]*Caller{a, c}); err != nil {
+			return err
+		}
+		// a request without a response handler
+		nh := mkRequest(tyWrite, 9000, 0)
+		if err := p.SC.SendRequestWithTimeout(context.Background(), nh, nil, time.Second, nil); err != nil {
+			return fmt.Errorf("request without handler: %v", err)
+		}
+		rq, ok := p.Srv.Next(2 * time.Second)
+		if !ok || rq.Err != nil {
+			return fmt.Errorf("server did not get the request without handler")
+		}
+		nhID := rq.ReqID
+		s.probe[nhID] = true
+		// model: a call that allocates an id and writes, with no handler: alloc only (nothing registered)
+		nhT := s.newCaller(tyWrite, time.Second)
+		nhT.done = make(chan struct{})
+		close(nhT.done)
+		nhT.Code, nhT.UID, nhT.For = -1, -1, -1
+		s.idOf[nhT.Tid] = nhID
+		s.events = append(s.events, Ev{"alloc", nhT.Tid, 0, tyWrite})
+		taken[nhT.Tid] = true
+		c.cancel()
+		if !s.wait(a, 3*time.Second) || !s.wait(c, 3*time.Second) {
+			return fmt.Errorf("the calls did not return")
+		}
+		s.settle(taken)
+		// now the late answers, each in several chunks
+		for _, x := range []struct {
+			id  uint32
+			tid int
+		}{{s.idOf[a.Tid], a.Tid}, {s.idOf[c.Tid], c.Tid}, {nhID, -1}} {
+			if err := s.frame("okbig", x.id, x.tid, tyWrite); err != nil {
+				return err
+			}
+			if s.bigChunks < 2 {
+				return fmt.Errorf("the late response took %d chunk(s), wanted several", s.bigChunks)
+			}
+		}
+		b, err := s.healthyCall(taken)
+		if err != nil {
+			return err
+		}
+		s.emitC19("after-late-multichunk", map[string]interface{}{"expect_ok": []int{b.Tid}, "chunks_per_late_response": s.bigChunks})
 	case 0, 5: // timeouts: k calls with different timeouts, some answered, the rest time out; late answers follow
 		k := r.Range(1, 4)
 		var cs []*Caller
